@@ -162,8 +162,20 @@ Section Unique.
       leb (L va vb) (L vc ve) = true -> leb (L vc ve) (L va vb) = true ->
       (a = c /\ b = e) \/ (a = e /\ b = c).
 
-  (* the matrix has no ties: in every partition state *)
-  Definition no_ties : Prop := forall cl, good cl -> tie_free cl.
+  (* the matrix has no ties: in every partition state OF THE ITEMS BELOW n (a state that mentions other items is
+     not a state of the n x n matrix; without this bound the condition would be unsatisfiable for a matrix read
+     with a default outside its range, and the theorem below vacuous) *)
+  Definition items_lt (n : nat) (cl : clusters) : Prop := forall k v x, In (k, v) cl -> In x v -> x < n.
+  Definition no_ties (n : nat) : Prop := forall cl, good cl -> items_lt n cl -> tie_free cl.
+
+  Lemma items_lt_merge n cl a b va vb : good cl -> In (a, va) cl -> In (b, vb) cl -> a <> b ->
+    items_lt n cl -> items_lt n (merge a b cl).
+  Proof.
+    intros [W _] Ha Hb Nab I k v x H X.
+    apply (in_merge a b cl va vb k v W Nab Ha Hb) in H. destruct H as [[-> ->]|[_ [_ H]]].
+    - apply in_app_or in X. destruct X as [X|X]; [exact (I a va x Ha X)|exact (I b vb x Hb X)].
+    - exact (I k v x H X).
+  Qed.
 
   Lemma same_part_sym c1 c2 : same_part c1 c2 -> same_part c2 c1.
   Proof. intros S x y. symmetry. apply S. Qed.
@@ -200,10 +212,11 @@ Section Unique.
 
   (* THE THEOREM: without ties all runs of the textbook specification from equivalent
      partitions end in equivalent partitions *)
-  Theorem tb_run_unique thr : no_ties -> forall c1 r1, tb_run V leb link d thr c1 r1 ->
-    forall c2 r2, tb_run V leb link d thr c2 r2 -> good c1 -> good c2 -> same_part c1 c2 -> same_part r1 r2.
+  Theorem tb_run_unique n thr : no_ties n -> forall c1 r1, tb_run V leb link d thr c1 r1 ->
+    forall c2 r2, tb_run V leb link d thr c2 r2 -> good c1 -> good c2 -> items_lt n c1 -> items_lt n c2 ->
+    same_part c1 c2 -> same_part r1 r2.
   Proof.
-    intros NT c1 r1 R1. induction R1 as [c1 T1|c1 a b va vb r1 Ha Hb Nab Min1 Le1 R1 IH]; intros c2 r2 R2 G1 G2 S.
+    intros NT c1 r1 R1. induction R1 as [c1 T1|c1 a b va vb r1 Ha Hb Nab Min1 Le1 R1 IH]; intros c2 r2 R2 G1 G2 I1 I2 S.
     - (* run 1 has stopped: run 2 cannot merge *)
       destruct R2 as [c2 T2|c2 c e vc ve r2 Hc He Nce Min2 Le2 R2]; [exact S|].
       exfalso. rewrite (terminal_transfer thr c1 c2 G1 G2 S T1 c e vc ve Hc He Nce) in Le2. discriminate.
@@ -221,7 +234,7 @@ Section Unique.
           exact (Min1 c' e' vc' ve' Hc' He' Nce'). }
         assert (E2 : leb (L vc ve) (L va' vb') = true) by exact (Min2 a' b' va' vb' Ha' Hb' Nab').
         assert (SAME : forall x, (In x va \/ In x vb) <-> (In x vc \/ In x ve)).
-        { destruct (NT c2 G2 a' b' c e va' vb' vc ve Ha' Hb' Nab' Hc He Nce E1 E2) as [[Ea Eb]|[Ea Eb]]; subst.
+        { destruct (NT c2 G2 I2 a' b' c e va' vb' vc ve Ha' Hb' Nab' Hc He Nce E1 E2) as [[Ea Eb]|[Ea Eb]]; subst.
           - assert (va' = vc) by (destruct G2 as [W2 _]; pose proof (in_lookup c c2 va' W2 Ha'); pose proof (in_lookup c c2 vc W2 Hc); congruence).
             assert (vb' = ve) by (destruct G2 as [W2 _]; pose proof (in_lookup e c2 vb' W2 Hb'); pose proof (in_lookup e c2 ve W2 He); congruence).
             subst. intros x. split; intros [X|X].
@@ -239,6 +252,8 @@ Section Unique.
         apply (IH (merge c e c2) r2 R2).
         * exact (good_merge c1 a b va vb G1 Ha Hb Nab).
         * exact (good_merge c2 c e vc ve G2 Hc He Nce).
+        * exact (items_lt_merge n c1 a b va vb G1 Ha Hb Nab I1).
+        * exact (items_lt_merge n c2 c e vc ve G2 Hc He Nce I2).
         * intros x y. rewrite (together_merge c1 a b va vb x y G1 Ha Hb Nab).
           rewrite (together_merge c2 c e vc ve x y G2 Hc He Nce).
           rewrite (S x y), (SAME x), (SAME y). tauto.
@@ -255,12 +270,19 @@ Section Unique.
   Qed.
 
   (* the implementation's result IS the (unique) textbook result *)
-  Theorem flat_coincides_with_textbook n thr : no_ties ->
+  Lemma items_lt_init n : items_lt n (init n).
+  Proof.
+    intros k v x H X. unfold init in H. apply in_map_iff in H. destruct H as [i [E Hi]]. inversion E; subst.
+    destruct X as [<-|[]]. apply in_seq in Hi. lia.
+  Qed.
+
+  Theorem flat_coincides_with_textbook n thr : no_ties n ->
     forall r, tb_run V leb link d thr (init n) r -> same_part r (flat leb link d n thr).
   Proof.
     intros NT r R.
-    apply (tb_run_unique thr NT (init n) r R (init n) (flat leb link d n thr)
-             (flat_is_textbook V leb link d leb_total leb_trans n thr) (good_init n) (good_init n)).
+    apply (tb_run_unique n thr NT (init n) r R (init n) (flat leb link d n thr)
+             (flat_is_textbook V leb link d leb_total leb_trans n thr) (good_init n) (good_init n)
+             (items_lt_init n) (items_lt_init n)).
     intros x y. tauto.
   Qed.
 End Unique.
